@@ -11,6 +11,7 @@ import (
 	"math/rand"
 	"os"
 	"runtime"
+	"strconv"
 	"strings"
 	"sync"
 	"time"
@@ -255,6 +256,14 @@ func mnemonic(r *rand.Rand, tier string, tr *trace.Buf, wordlistOut string) {
 						}
 					}
 				}
+				// code points above 255 whose low byte is the expected letter (a decoder that narrows runes to bytes)
+				for ci := 0; ci < len(w); ci++ {
+					for _, hi := range []rune{0x100, 0x2000, 0xff00, 0x10000} {
+						rs := []rune(w)
+						rs[ci] += hi
+						emitDec(size, mut(p, string(rs)), "char-high-codepoint")
+					}
+				}
 				emitDec(size, mut(p, strings.ToUpper(w[:1])+w[1:]), "title-word")
 				emitDec(size, mut(p, w+"\t"), "tab-in-word")
 				emitDec(size, mut(p, w+"\n"), "newline-in-word")
@@ -398,6 +407,7 @@ type adEvent struct {
 	Height []int   `json:"height,omitempty"`
 	Af     []int   `json:"af,omitempty"`
 	Back   [][]int `json:"back,omitempty"`
+	Same   bool    `json:"same"`
 	ValidX []bool  `json:"validX,omitempty"`
 	ValidD []bool  `json:"validD,omitempty"`
 	// constructor round trip: one event per (hf, sig), arrays indexed by height*16+af
@@ -459,6 +469,39 @@ func address(r *rand.Rand, tier string, tr *trace.Buf) {
 			tr.Emit(e)
 		}
 	}
+	// (2b) a parsed descriptor is a VALUE: overwriting the buffer it was parsed from does not change it
+	for q := 0; q < 24; q++ {
+		b := []uint8{uint8(r.Intn(256)), uint8(r.Intn(256)), uint8(r.Intn(256))}
+		var epk [67]uint8
+		r.Read(epk[:])
+		snap := func(d *xmss.QRLDescriptor) []int {
+			g := d.GetBytes()
+			return []int{int(d.GetHashFunction()), int(d.GetSignatureType()), int(d.GetHeight()), int(d.GetAddrFormatType()), int(g[0]), int(g[1]), int(g[2])}
+		}
+		var ds []*xmss.QRLDescriptor
+		ds = append(ds, xmss.NewQRLDescriptorFromBytes(b), xmss.LegacyQRLDescriptorFromBytes(b),
+			xmss.NewQRLDescriptorFromExtendedPK(&epk), xmss.LegacyQRLDescriptorFromExtendedPK(&epk))
+		var before [][]int
+		for _, d := range ds {
+			before = append(before, snap(d))
+		}
+		for i := range b {
+			b[i] ^= 0xff
+		}
+		for i := range epk {
+			epk[i] ^= 0xff
+		}
+		same := true
+		for i, d := range ds {
+			a := snap(d)
+			for k := range a {
+				if a[k] != before[i][k] {
+					same = false
+				}
+			}
+		}
+		tr.Emit(adEvent{Ev: "alias", Same: same, Dec: before})
+	}
 	// (3) address derivation
 	emitX := func(pk [67]uint8, class string) {
 		var addr [20]uint8
@@ -499,15 +542,36 @@ func address(r *rand.Rand, tier string, tr *trace.Buf) {
 				pk := x.GetPK()
 				realPKs = append(realPKs, pk)
 				emitX(pk, "real-key")
-				// the object's own getters
-				a := x.GetAddress()
-				la := x.GetLegacyAddress()
-				s35 := sha256.Sum256(la[:35])
-				sp := sha256.Sum256(pk[:])
-				tr.Emit(adEvent{Ev: "xaddr", Pk: ints(pk[:]), Shake: ints(shake256(pk[:], 32)), Res: "ok", Addr: ints(a[:]),
-					VX: xmss.IsValidXMSSAddress(a), VD: dilithium.IsValidDilithiumAddress(a), Class: "object-getter"})
-				tr.Emit(adEvent{Ev: "laddr", Pk: ints(pk[:]), Sha: ints(sp[:]), Res: "ok", Addr: ints(la[:]), Sha35: ints(s35[:]),
-					VL: xmss.IsValidLegacyXMSSAddress(la), Class: "object-getter"})
+				// the object's own getters, also for objects constructed with an address format the library
+				// does not support (the constructors accept every nibble; the derivation must refuse it exactly
+				// like the function on the public key does)
+				for _, af := range []int{0, 1, 2 + r.Intn(13), 15} {
+					xo := x
+					if af != 0 {
+						xo = xmss.NewXMSSFromSeed(seed, h, xmss.HashFunction(hf), common.AddrFormatType(af))
+					}
+					opk := xo.GetPK()
+					var a [20]uint8
+					var la [39]uint8
+					ra := call(func() { a = xo.GetAddress() })
+					rl := call(func() { la = xo.GetLegacyAddress() })
+					ea := adEvent{Ev: "xaddr", Pk: ints(opk[:]), Shake: ints(shake256(opk[:], 32)), Res: ra, Class: "object-getter"}
+					if ra == "ok" {
+						ea.Addr = ints(a[:])
+						ea.VX = xmss.IsValidXMSSAddress(a)
+						ea.VD = dilithium.IsValidDilithiumAddress(a)
+					}
+					tr.Emit(ea)
+					sp := sha256.Sum256(opk[:])
+					el := adEvent{Ev: "laddr", Pk: ints(opk[:]), Sha: ints(sp[:]), Res: rl, Class: "object-getter"}
+					if rl == "ok" {
+						s35 := sha256.Sum256(la[:35])
+						el.Addr = ints(la[:])
+						el.Sha35 = ints(s35[:])
+						el.VL = xmss.IsValidLegacyXMSSAddress(la)
+					}
+					tr.Emit(el)
+				}
 			}
 		}
 	}
@@ -775,6 +839,36 @@ func recoverDrive(r *rand.Rand, tier string, tr *trace.Buf) {
 						e.Sigs0 = append(e.Sigs0, dg(g0))
 						e.Sigs1 = append(e.Sigs1, dg(g1))
 					}
+					// the original SIGNS its way across an index that ends in 0xff and to its last leaf, the
+					// re-created wallet is FAST-FORWARDED there (SetIndex): same signatures from there on
+					n := 1 << uint(h)
+					cmp := func(xFrom, yAt, upto int) {
+						res2 := call(func() {
+							x.SetIndex(uint32(xFrom))
+							var xs [][]byte
+							for i := xFrom; i <= upto; i++ {
+								g, err := x.Sign([]byte("ff-" + strconv.Itoa(i)))
+								if err != nil {
+									g = []byte("error:" + err.Error())
+								}
+								xs = append(xs, g)
+							}
+							y.SetIndex(uint32(yAt))
+							for i := yAt; i <= upto; i++ {
+								g, err := y.Sign([]byte("ff-" + strconv.Itoa(i)))
+								if err != nil {
+									g = []byte("error:" + err.Error())
+								}
+								e.Sigs0 = append(e.Sigs0, dg(xs[i-xFrom]))
+								e.Sigs1 = append(e.Sigs1, dg(g))
+							}
+						})
+						if res2 != "ok" {
+							e.Res = res2
+						}
+					}
+					cmp(253, 255, 258)
+					cmp(n-3, n-1, n-1)
 				}
 				tr.Emit(e)
 			}
